@@ -145,3 +145,26 @@ Example C17_hc_chain_nonvacuous :
   (cr_ret r, cr_consumed r, cr_hw r) = (12, 46, 12) /\
   spec_decode [] (cr_out r) = Some (firstn 46 l) /\ chain_level 4 = true.
 Proof. vm_compute. repeat split; reflexivity. Qed.
+
+(* LZ4_compress_HC_destSize at levels 3-12 (fillOutput): nothing is written beyond targetDstSize, and a positive
+   result is a block that the specification decodes to exactly the first *srcSizePtr bytes. *)
+From LZ4V Require Model.HcOpt Proofs.HcOptParser.
+From LZ4V Require Import Model.HcOptApi Proofs.HcOptApiSound.
+
+Theorem C17_hc_opt_destSize :
+  forall src srcSize target cLevel,
+    src_ok src -> 0 <= srcSize < 2147483648 -> 0 <= target -> all_level cLevel = true ->
+    let r := compress_HC_destSize_all src srcSize target cLevel in
+    cr_hw r <= target /\
+    (0 < cr_ret r ->
+       cr_ret r = Z.of_nat (length (cr_out r)) /\ cr_ret r <= target /\ 0 <= cr_consumed r <= srcSize /\
+       spec_decode [] (cr_out r) = Some (load_list src 0 (Z.to_nat (cr_consumed r)))).
+Proof. exact opt_destSize. Qed.
+Print Assumptions C17_hc_opt_destSize.
+
+Example C17_hc_opt_nonvacuous :
+  let l := repeat 7 40 ++ [1; 2; 3; 4; 5; 6; 7; 8; 9; 10; 11; 12; 13; 14; 15; 16; 17; 18; 19; 20] in
+  let r := compress_HC_destSize_all (mem_of_list 0 l) 60 12 11 in
+  (cr_ret r, cr_consumed r, cr_hw r) = (12, 46, 12) /\
+  spec_decode [] (cr_out r) = Some (firstn 46 l) /\ all_level 11 = true.
+Proof. vm_compute. repeat split; reflexivity. Qed.
